@@ -21,7 +21,9 @@ from .common import Check, Driver, proof_stage, rng_for
 PROP = "C05"
 MODULE = "PV.Props.C05"
 THEOREMS = [f"PV.Props.C05.{t}" for t in ["labelIndexFrom_add", "labelIndex_le", "labelIndex_correct", "specRemove_eq_map", "specRemove_length",
-                                           "substTok_other", "substTok_label", "substInstr_head", "labelIndex_erase_other"]]
+                                           "substTok_other", "substTok_label", "substInstr_head", "labelIndex_erase_other",
+                                           "label_removal_preserves_traces", "initial_states_related"]] + \
+           ["PV.Strip.strip_sim_fwd", "PV.Strip.strip_sim_bwd", "PV.Strip.exec_renum", "PV.Strip.strip_get"]
 
 SAFE_NAMES = ["alpha", "beta2", "run", "tick", "work", "zeta", "q", "mainloop", "doit", "x1", "calc", "report", "Heat", "B"]
 # names that exercise the textual label substitution without hitting a known collision
@@ -120,6 +122,11 @@ def run(tier: str, seed: int) -> int:
         chk.count(("pair", a["code"]), nontrivial=":" in a["code"])
         chk.bump("pairs")
         bad, detail = judge_pair(drv, a, b)
+        # machine level: is this real pair an instance of `label_removal_preserves_traces` (label-free output = strip of the
+        # labelled one, every kept line simple)?  Informational: a pair outside the fragment (jal, jr, a label used as a value)
+        # is judged by the text-level comparison above and by the behavioural run below.
+        sv = drv.call(cmd="strip-compare", labelled=a["code"], stripped=b["code"])
+        chk.bump("strip:" + sv["verdict"] + (":covered" if sv.get("covered") and sv["verdict"] == "same" else ""))
         if len(chk.coverage["samples"]) < 3 and detail.get("labels"):
             chk.sample({"name": name, "labelled_head": a["code"][:200], "label_free_head": b["code"][:200], "labels": detail.get("labels")})
         if bad:
@@ -153,7 +160,8 @@ def run(tier: str, seed: int) -> int:
     drv.close()
     chk.coverage["rule"] = ("pairs of real outputs (labels kept / removed, other options equal and random) for shipped programs, generated programs (core, funcs, calls) and an identifier stream "
                             "(function names that look like opcodes, registers, generated labels); non-trivial = the labelled output contains a label; generated programs are also run against the reference semantics under both settings")
-    chk.coverage["explanation"] = "label semantics theorems proved; real remove_labels tied to specRemove by comparing real output pairs"
+    chk.coverage["explanation"] = ("label semantics theorems proved; real remove_labels tied to specRemove by comparing real output pairs; pairs counted under strip:same:covered are "
+                                   "instances of the machine-level theorem label_removal_preserves_traces (the label-free output is PV.Strip.strip of the labelled one and has no jal / relative branch)")
     if failures:
         f = min(failures, key=lambda x: len(x["src"]) if isinstance(x.get("src"), str) else 10 ** 6)
         chk.violation(dict(f, broken=chk.broken, n_failures=len(failures), all_failures=[x["what"][:240] for x in failures[:10]]))
